@@ -52,6 +52,10 @@ func (s *Scanner) reset(r io.Reader) {
 	}
 	s.r.eof = false
 	s.idx = 0
+	// a reused scanner starts in the state of a new one: what the previous text ended with
+	// must not decide how the next one is read ('/' at the start of the text, dots in a bare identifier)
+	s.preToken = 0
+	s.checkDOT = false
 }
 
 // Scan returns the next token and position from the underlying reader.
